@@ -728,7 +728,7 @@ class WalletTransaction(Transaction):
         inputs = []
         for inp in db_tx.inputs:
             sequence = 0xffffffff
-            if inp.sequence:
+            if inp.sequence is not None:
                 sequence = inp.sequence
             inp_keys = []
             if inp.key_id:
